@@ -9,7 +9,9 @@ PROPS = {
                        "parser/grammar/*.rs: if a function reports no error (and the end of input was not swallowed by an error path), it has added at least as many significant tokens to the tree as the SHORTEST "
                        "sentence of its production has (Arguments >= 5: `(` Name `:` Value `)`; VariableDefinitions >= 6; SelectionSet >= 3; FragmentDefinition >= 7; FieldsDefinition >= 5; DirectiveDefinition >= 5 when entered at "
                        "`directive`; SchemaDefinition >= 6 when entered at `schema`; the type extensions >= 5; ...). An implementation that silently accepts an EMPTY list, a MISSING mandatory token or a half-written "
-                       "construct violates the bound of that production, for every input. Found this way and repaired in /repo: `f(a)` (argument without `: value`), `{b}` (object field without `: value`), `schema @d` "
+                       "construct violates the bound of that production, for every input. Second necessary condition, on every grammar function as well: no error means BALANCED BRACKETS -- the numbers of open `{` `(` `[` "
+                       "among the significant tokens are the same before and after (value-like productions: unless the input ended inside them, where the enclosing production reports). Third: the grammar's 'but not' "
+                       "clauses -- an enum value spelled true / false / null, a fragment called `on`, an operation type other than query / mutation / subscription, a type condition not starting with `on` are always reported. Found this way and repaired in /repo: `f(a)` (argument without `: value`), `{b}` (object field without `: value`), `schema @d` "
                        "(schema definition without root operation types). Known finding (repair changes a pinned snapshot): `schema { query: }` is accepted.",
         "assumptions": ["the Lexer contract (proved in units lexer / lexer_next, shared clause text)", "peek_n / peek_token_n / peek_data_n results are unconstrained (they only steer branches)",
                         "the bounds are conditional on the entry look-ahead where a definition function is entered through select_definition (keyword or description first)"],
@@ -219,7 +221,8 @@ PROPS = {
         "explanation": "Verus proves for parse_type, for every token stream: the returned tree has no error only if the kinds of the significant tokens added to the tree "
                        "are exactly one Type of the grammar Type :: Name | [ Type ] | Name ! | [ Type ] ! (ghost sequence of significant token kinds; ty::parse's postcondition "
                        "type_grammar, expect's 'consumes the expected token or reports'), and the look-ahead after skipping ignored tokens is EOF (nothing else is left); a missing type "
-                       "is always reported. For parse_selection_set only the end-of-input clause is proved. The tree reports exactly the parser's errors. "
+                       "is always reported. For parse_selection_set the end-of-input clause is proved, and that an error-free field set has balanced braces "
+                       "(field_set / selection_set / every production below them: no error means the open-bracket counts of `{` `(` `[` are unchanged), so `a }` or `{ a` cannot be accepted. The tree reports exactly the parser's errors. "
                        "Compiler side (unit parse_common): every parser error whose offset fits 32 bits becomes exactly one diagnostic, in order (SyntaxError / ParserLimit), so a syntax error is never dropped on the way to "
                        "apollo_compiler::parser::parse_type / parse_field_set, which return Err iff the diagnostic list is non-empty.",
         "assumptions": ['the Lexer contract in the parser_core prelude (items carry the remaining text in order; a measure decreases per item; None only after the limit or at the end; the EOF token is empty and comes when the text is used up; a `{` token is the text "{") is PROVED for the real Lexer::next / Lexer::new in unit `lexer_next`, from the contract of Cursor::advance that unit `lexer` proves; the clause texts are single Python constants shared by the assuming and the proving unit (assume/guarantee by identical text); what remains assumed at the bottom is the ghost model of Cursor\'s six primitives over CharIndices and "advance never yields a limit error" (frame check)', 'Name tokens produced by the lexer satisfy the Name grammar, so grammar::name::validate_name never reports (proved for Cursor::advance in unit lexer; validate_name itself is a no-op shim here)', 'Parser::peek_n / peek_token_n / peek_data_n (iterator chain over a CLONE of the lexer, `&self`): results unconstrained, parser state untouched', 'rowan GreenNodeBuilder: token() appends text, start/finish/wrap add none; Drop of NodeGuard has no spec', 'recursion limit < usize::MAX'],
